@@ -1,5 +1,6 @@
 """C14 — RingBuffer is an unbounded, linearizable FIFO queue."""
-import itertools
+import hashlib, itertools, json, os, re, shutil, time
+from concurrent.futures import ThreadPoolExecutor
 from ..driver import Part
 from . import c14_conc
 from .. import common as C
@@ -22,6 +23,11 @@ TRUSTED_BASE = [
 ]
 ASSUMPTIONS = [
     "the theorem is about Ring.v, a hand transcription of ringbuffer.go; the tie is differential execution on generated histories",
+    "second tie (coverage.parts.sequential.translation_tie): tools/ringtrans translates the current ringbuffer.go into GoMini terms "
+    "(coq/GoMini.v) on every run; status 'proved' = coq/RingSrcProofs.v was re-checked against those terms (they behave like Ring.v for "
+    "all heaps, rings and arguments, hence like the FIFO; trusted: the translator and GoMini's sequential semantics); status "
+    "'unavailable' = the source left the translated fragment or the equivalence proof needs porting, and the verdict rests on the "
+    "differential execution alone (never a violation by itself)",
     "concurrent callers: mutators are serialised by the mutex (modelled as atomic sections), Len is one atomic read",
 ]
 
@@ -53,6 +59,182 @@ def res_coq(r):
     raise ValueError(r)
 
 
+# ---------------------------------------------------------------- translation tie (DESIGN.md 0.8)
+# tools/ringtrans regenerates a GoMini model of ringbuffer.go from the current source; coq/RingSrcProofs.v proves that
+# model equivalent to Ring.v.  Both are compiled in a work directory of their own, outside the main build, so that a
+# source the translator refuses or a proof that no longer compiles degrades this tie to "unavailable" and disturbs
+# nothing else.  The result is information in the evidence; it never produces a violation.
+TIE_THEOREMS = ["push_ok", "pop_ok", "popN_ok", "step_ok", "C14_src_refines_fifo"]
+TIE_DEPS = ["GoMini.v", "GoMiniFacts.v", "RingSrcRun.v", "Ring.v", "RingProofs.v", "RingExec.v", "PropsRing.v"]
+TIE_MODEL_CHECK_CASES = 1500
+
+
+def _coqc_src(d, f, timeout):
+    return C.sh(["coqc", "-Q", C.COQ, "HV", "-Q", d, "HVSrc", f], cwd=d, timeout=timeout)
+
+
+def _coq_error(out, text):
+    """'<lemma> (line n): <first words of the error>' from coqc's output on RingSrcProofs.v"""
+    m = None
+    for m in re.finditer(r'File "[^"]*", line (\d+), characters [^\n]*\n(.*)', out, flags=re.S):
+        pass
+    if not m:
+        return re.sub(r"\s+", " ", out[-500:])
+    line = int(m.group(1))
+    names = [(x.start(), x.group(2)) for x in C.STMT.finditer(text)]
+    pos = sum(len(l) + 1 for l in text.split("\n")[:line - 1])
+    inside = [n for (p, n) in names if p <= pos]
+    return "in %s (RingSrcProofs.v line %d): %s" % (inside[-1] if inside else "?", line, re.sub(r"\s+", " ", m.group(2))[:400])
+
+
+def _unavailable(reason, message, **more):
+    return {"status": "unavailable", "detail": dict(reason=reason, message=message, **more)}
+
+
+def _model_check(d, terms):
+    """the generated model, run by vm_compute on the cases of the correspondence run: where does IT differ from the
+    FIFO specification / from the implementation?  (only when the proof is broken; a sampling aid, not a proof)"""
+    terms = terms[:TIE_MODEL_CHECK_CASES]
+    shards = [terms[i:i + 250] for i in range(0, len(terms), 250)]
+    files = []
+    for k, sh_cases in enumerate(shards):
+        f = os.path.join(d, "SrcCases_%d.v" % k)
+        with open(f, "w") as o:
+            o.write("From stdpp Require Import list.\nFrom Coq Require Import ZArith.\n"
+                    "From HV Require Import GoMini RingExec RingSrcRun.\nFrom HVSrc Require Import RingSrc.\nOpen Scope Z_scope.\n"
+                    "Definition methods := {| rm_new := new_src; rm_push := push_src; rm_pop := pop_src; rm_popN := popN_src; rm_len := len_src |}.\n"
+                    "Definition cases : list case := [\n" + ";\n".join(sh_cases) + "\n].\n"
+                    "Definition M := Eval vm_compute in src_report methods cases.\n"
+                    'Goal True. idtac "@@BEGIN". Abort.\nPrint M.\nGoal True. idtac "@@END". Abort.\n')
+        files.append(f)
+
+    def one(f):
+        rc, out = _coqc_src(d, f, 900)
+        m = re.search(r"@@BEGIN\s*M =(.*?)\n\s*: [^\n]*(?:\n[^@]*)?@@END", out, flags=re.S)
+        if rc != 0 or not m:
+            raise RuntimeError(out[-800:])
+        return C.coq_term_to_py(m.group(1))
+
+    with ThreadPoolExecutor(max_workers=C.NCPU) as ex:
+        reps = list(ex.map(one, files))
+    spec, obs, unfinished = [], [], []
+    for k, (sp, ob, st) in enumerate(reps):
+        spec += [k * 250 + i for i in sp]
+        obs += [k * 250 + i for i in ob]
+        unfinished += [(k * 250 + i, c) for (i, c) in st]
+    return len(terms), spec, obs, unfinished
+
+
+def translation_tie(part, inputs, obs, tier):
+    """{"status": "proved" | "unavailable", "detail": ...}; never raises"""
+    t0 = time.time()
+    work = None
+    try:
+        work = C.Work("C14tie")
+        d = work.path("ringsrc")
+        os.makedirs(d)
+        # 1. translate the current source (the translator binary is kept, keyed by its own source)
+        tdir = os.path.join(C.VERIF, "tools", "ringtrans")
+        tkey = hashlib.sha256(open(os.path.join(tdir, "main.go"), "rb").read()).hexdigest()[:16]
+        trans = os.path.join(C.WORKROOT, "ringsrc-cache", "ringtrans-" + tkey)
+        if not os.path.exists(trans):
+            os.makedirs(os.path.dirname(trans), exist_ok=True)
+            rc, out = C.sh(["go", "build", "-o", work.path("ringtrans"), "."], cwd=tdir, env=dict(C.GOENV), timeout=300)
+            if rc != 0:
+                return _unavailable("translator-not-built", out[-600:])
+            os.replace(work.path("ringtrans"), trans)
+        gen = os.path.join(d, "RingSrc.v")
+        rc, out = C.sh([trans, "-repo", C.REPO, "-o", gen], timeout=60)
+        if rc == 3:
+            return _unavailable("source-outside-the-translated-fragment", out.strip()[-500:])
+        if rc != 0:
+            return _unavailable("translator-failed", "rc=%d %s" % (rc, out.strip()[-500:]))
+        src = open(gen).read()
+        proofs_path = os.path.join(C.COQ, "RingSrcProofs.v")
+        proofs = open(proofs_path).read()
+        sha = hashlib.sha256(open(os.path.join(C.REPO, "ringbuffer", "ringbuffer.go"), "rb").read()).hexdigest()[:16]
+        # 2. the static part of the development must be there, and nothing may be assumed
+        missing = [v for v in TIE_DEPS if not C.vo_ok(v)]
+        if missing:
+            return _unavailable("coq-dependencies-not-built", "no up-to-date .vo for " + ", ".join(missing))
+        bad = [m.group(0) for t in (src, proofs) for m in C.FORBIDDEN.finditer(re.sub(r"\(\*.*?\*\)", "", t, flags=re.S))]
+        if bad:
+            return _unavailable("forbidden-construct", ", ".join(bad))
+        base = dict(source_sha256_16=sha, generated="RingSrc.v (%d bytes): new_src push_src pop_src popN_src len_src" % len(src),
+                    checker_cmd="tools/ringtrans -repo $VERIF_REPO; coqc -Q coq HV -Q <work> HVSrc RingSrc.v RingSrcProofs.v (outside the main build)")
+        h = hashlib.sha256()
+        for t in [src, proofs] + [open(os.path.join(C.COQ, v)).read() for v in TIE_DEPS]:
+            h.update(t.encode() + b"\0")
+        cache = os.path.join(C.WORKROOT, "ringsrc-cache", h.hexdigest()[:24] + ".json")
+        if tier == "quick" and os.path.exists(cache) and not os.environ.get("VERIF_NO_TIE_CACHE"):
+            # same generated terms, same proofs, same model files as in an earlier successful check
+            try:
+                res = json.load(open(cache))
+                res["detail"].update(cached=True, wall_s=round(time.time() - t0, 1))
+                return res
+            except Exception:
+                pass
+        # 3. compile the generated terms, then the equivalence proofs against them
+        rc, out = _coqc_src(d, gen, 300)
+        if rc != 0:
+            return _unavailable("generated-terms-do-not-compile", out[-600:], **base)
+        shutil.copy(proofs_path, os.path.join(d, "RingSrcProofs.v"))
+        rc, out = _coqc_src(d, os.path.join(d, "RingSrcProofs.v"), 900)
+        if rc == 124:       # killed by the timeout (machine load): once more
+            rc, out = _coqc_src(d, os.path.join(d, "RingSrcProofs.v"), 1800)
+        if rc == 0:
+            pa = {m.group(1): m.group(2).strip() for m in re.finditer(r"@@BEGIN (\S+)\n(.*?)@@END", out, flags=re.S)}
+            open_ = {t: pa.get(t, "MISSING") for t in TIE_THEOREMS if not pa.get(t, "").startswith("Closed under the global context")}
+            if open_:
+                return _unavailable("theorems-not-closed", json.dumps(open_)[:600], **base)
+            res = {"status": "proved", "detail": dict(base, theorems={t: pa[t] for t in TIE_THEOREMS}, cached=False,
+                                                      wall_s=round(time.time() - t0, 1))}
+            try:
+                os.makedirs(os.path.dirname(cache), exist_ok=True)
+                json.dump(res, open(cache + ".tmp%d" % os.getpid(), "w"))
+                os.replace(cache + ".tmp%d" % os.getpid(), cache)
+            except Exception:
+                pass
+            return res
+        if rc == 124:
+            return _unavailable("timeout", "coqc RingSrcProofs.v did not finish", **base)
+        # 4. translated, but the equivalence proof does not go through for these terms: the proof has to be ported
+        #    (or the change is not behaviour-preserving).  Say what the generated model does on the cases just run.
+        res = _unavailable("equivalence-proof-does-not-compile", _coq_error(out, proofs), **base)
+        try:
+            terms = [part.to_coq(i["input"], o) for i, o in zip(inputs, obs)]
+            n, spec, ob, unfinished = _model_check(d, terms)
+            mc = dict(cases=n, generated_model_differs_from_fifo_spec=len(spec), generated_model_differs_from_implementation=len(ob),
+                      runs_not_finished=len(unfinished))
+            if spec:
+                i = spec[0]
+                how = {0: "finishes, with other results than the FIFO", 1: "panics", 2: "gets stuck (leaves GoMini)"}[dict(unfinished).get(i, 0)]
+                mc["first_counterexample_to_the_spec"] = dict(input=part.describe(inputs[i]["input"]),
+                                                              implementation_returned=obs[i], generated_model=how)
+            res["detail"]["model_check"] = mc
+        except Exception as e:
+            res["detail"]["model_check"] = {"error": str(e)[-400:]}
+        return res
+    except Exception as e:
+        return _unavailable("internal-error", repr(e)[-400:])
+    finally:
+        if work is not None:
+            work.close()
+
+
+def tie_note(res):
+    """one stdout line when the tie is not 'proved' (information, not a verdict)"""
+    if res["status"] == "proved":
+        return None
+    d = res["detail"]
+    mc = d.get("model_check") or {}
+    extra = ""
+    if "cases" in mc:
+        extra = " generated-model-vs-fifo-spec: %d of %d cases differ" % (mc["generated_model_differs_from_fifo_spec"], mc["cases"])
+    return "NOTE property=C14 translation_tie=unavailable reason=%s%s detail=%s" % (
+        d.get("reason"), extra, re.sub(r"\s+", " ", str(d.get("message")))[:300])
+
+
 class Seq(Part):
     name = "sequential"
     family = "ring"
@@ -60,7 +242,16 @@ class Seq(Part):
     branch_names = {1: "grow_head0", 2: "grow_wrapped", 3: "popN_across_wrap", 4: "popN_clamped",
                     5: "pop_empty", 6: "pop_across_wrap"}
 
+    def extra_coverage(self, inputs, obs):
+        res = translation_tie(self, inputs, obs, getattr(self, "_tier", "quick"))
+        note = tie_note(res)
+        if note:
+            print(note, flush=True)
+        C.log("translation tie: %s" % json.dumps(res)[:800])
+        return {"translation_tie": res}
+
     def generate(self, rng, tier):
+        self._tier = tier
         cases = []
         # exhaustive family
         alpha = [["push", None], ["pop"], ["popn", 0], ["popn", 1], ["popn", 2], ["popn", 3], ["popn", 5], ["len"]]
